@@ -53,7 +53,7 @@ def R(name):
     return ('reg', name)
 
 
-def gen_ast(rng):
+def gen_ast(rng, embedded=False):
     """list of items; operands are token lists, a token is a str or ('reg', name)"""
     items = [('org', rng.choice([0, 4, 32]))]
     # preprocessor lines: the amount of whitespace between their tokens carries no meaning either
@@ -93,6 +93,14 @@ def gen_ast(rng):
             items += [('pp', cond_), ('data', '.byte', [[str(rng.randrange(1, 100))]]), ('pp', ['#else']),
                       ('data', '.byte', [[str(rng.randrange(100, 200))], ['7']]), ('pp', ['#endif'])]
             continue
+        if embedded and r >= 0.91 and r < 0.955:
+            # a bare string (the configuration allows embedded strings); a label in front of it names its first character
+            if labels and not pending_local and rng.random() < 0.7:
+                nm = labels.pop()
+                items.append(('label', nm))
+                defined.append(nm)
+            items.append(('raw', rng.choice(['"Hi"', '"a;b"', '"say \\"x\\""', '"it\'s"', '""', '"two words"'])))
+            continue
         if r >= 0.955:
             # layout directives; a label in front of one names the address the line starts on, as on a line of its own
             if labels and not pending_local and rng.random() < 0.7:
@@ -126,6 +134,12 @@ def gen_ast(rng):
         elif mn in ('ldi', 'q12'):
             ops = [[rng.choice([num, '$' + format(rng.randrange(0, 256), 'x'), "'" + rng.choice('xY5+') + "'"] + (['LIM_X'] if pp_mode else []))]] \
                 if not lab else [['BYTE0(', lab, ')']]
+            if rng.random() < 0.2:
+                # character literals of the characters that delimit other things (quotes, the comment character, the escape
+                # character): two or three statements in a row, so that they may end up on one line and in front of a comment
+                qs_ = rng.choice([['"'], ['"', '"', "'", ';', '\\'], ["'", ';', '\\']])
+                items += [('instr', rng.choice(['ldi', 'q12']), [["'" + rng.choice(qs_) + "'"]]) for _ in range(rng.randrange(2, 4))]
+                continue
             if pp_mode and rng.random() < 0.3:
                 # a use of a preprocessor symbol between two statements that carry a quoted character (they may end up on one line)
                 items += [('instr', 'ldi', [["'" + rng.choice('xq+') + "'"]]), ('instr', mn, [['LIM_X']]), ('instr', 'ldi', [["'" + rng.choice("yZ") + "'"]])]
@@ -327,7 +341,7 @@ class C18(core.Check):
     chunk = 900
     required_buckets = {**{'alone:' + k: 3 for k in REWRITES}, 'all-together': 3, 'tab-after-mnemonic': 3,
                         'upper-register-in-brackets': 3, 'upper-register-indexed': 3, 'label-contains-mnemonic': 3,
-                        'joined>=2': 3, 'joined>=3': 3, 'label-in-front-of-local-reference': 3, 'label-in-front-of-align': 3, 'label-in-front-of-fill': 3, 'corpus-example': 3, 'preprocessor-lines': 3, 'tab-after-directive-keyword': 3, 'quote-in-comment-after-quoted-statement': 3,
+                        'joined>=2': 3, 'joined>=3': 3, 'label-in-front-of-local-reference': 3, 'label-in-front-of-align': 3, 'label-in-front-of-embedded-string': 3, 'two-double-quote-literals-on-one-line': 3, 'comment-behind-a-backslash-quote-or-semicolon-literal': 3, 'label-in-front-of-fill': 3, 'corpus-example': 3, 'preprocessor-lines': 3, 'tab-after-directive-keyword': 3, 'quote-in-comment-after-quoted-statement': 3,
                         'include-line': 3, 'include-line:trailing-comments': 3,
                         'symbol-use-between-two-quoted-characters-on-one-line': 3,
                         'comment-with-a-character-some-tools-take-for-a-line-end': 3}
@@ -401,8 +415,11 @@ class C18(core.Check):
             rng = core.rng_for(0 if i < n_pre else seed, self.pid, i)
             endian = rng.choice(['big', 'little'])
             isa = c18_isa(endian)
+            emb = i % 2 == 1
+            if emb:
+                isa['general']['allow_embedded_strings'] = True
             fn, itext = isamod.render_isa(isa, 'json')
-            ast = gen_ast(rng)
+            ast = gen_ast(rng, embedded=emb)
             canon = render(ast, rng, set())
             variants = []
             for kind in REWRITES:
@@ -436,12 +453,18 @@ class C18(core.Check):
                     t.add('label-in-front-of-local-reference')
                 if 'label-placement' in ks and re.search(r'^\s*\w+:[ \t]+\.align\b', src, re.M):
                     t.add('label-in-front-of-align')
+                if 'label-placement' in ks and re.search(r'^\s*\w+:[ \t]+"', src, re.M):
+                    t.add('label-in-front-of-embedded-string')
                 if 'label-placement' in ks and re.search(r'^\s*\w+:[ \t]+\.(fill|zero)\b', src, re.M):
                     t.add('label-in-front-of-fill')
                 if re.search(r'^[^;\n]*["\'][^\n]*;[^\n]*["\']', src, re.M) and 'trailing-comments' in ks:
                     t.add('quote-in-comment-after-quoted-statement')
                 if re.search('[\x0b\x0c\x1c-\x1e\x85\u2028\u2029]', src):
                     t.add('comment-with-a-character-some-tools-take-for-a-line-end')
+                if 'join-instructions' in ks and re.search(r"'\"'[^\n]*'\"'", src):
+                    t.add('two-double-quote-literals-on-one-line')
+                if 'trailing-comments' in ks and re.search(r"'[\\';]'[ \t]*;", src):
+                    t.add('comment-behind-a-backslash-quote-or-semicolon-literal')
                 if 'join-instructions' in ks and re.search(r"'.'[^\n;]*\bLIM_X\b[^\n;]*'.'", src):
                     t.add('symbol-use-between-two-quoted-characters-on-one-line')
                 if 'join-instructions' in ks:
